@@ -200,6 +200,8 @@ class PDoer(doing.Doer):
         super().__init__(tock=spec.get("tock", 0.0))
 
     def enter(self, *, temp=None):
+        if self._run.prog.get("temp_used"):
+            self._run.ev("enter-temp", self._spec["id"], temp=temp)
         if _enter(self._run, self._spec, self._st, self.done):
             self.done = self._st.value  # truthy by construction for this kind
 
@@ -233,6 +235,8 @@ class PReDoer(PDoer):
     """Doer subclass whose recur is a generator method (yield from delegation)."""
 
     def enter(self, *, temp=None):
+        if self._run.prog.get("temp_used"):
+            self._run.ev("enter-temp", self._spec["id"], temp=temp)
         self._fin = _enter(self._run, self._spec, self._st, self.done)
 
     def recur(self, tock=None):
@@ -501,6 +505,10 @@ def build(prog):
         run.do_kwa = {}
     if prog.get("tock") is not None:
         kwa["tock"] = prog["tock"]
+    if prog.get("temp_used"):
+        kwa["temp"] = prog.get("ctor_temp")
+        if "call_temp" in prog:
+            run.do_kwa["temp"] = prog["call_temp"]
     run.doist = PDoist(run, **kwa)
     run.doist._ctor_list = kwa.get("doers") if isinstance(kwa.get("doers"), list) else None
     run.top = top
